@@ -20,7 +20,7 @@ ID = 'C12'
 LEVEL = 'exploration'
 TECHNIQUE = 'runtime monitor: convergence reference model vs behaviourally observed installed set at quiescence, gated + yield-injected schedules'
 RULE = ('poll scripts of 2-10 responses (update with 0-4 tracepoints / no-change / error status / update containing '
-        'uninterpretable tracepoints) interleaved with register / unregister calls from a second thread; real '
+        'uninterpretable tracepoints, service time stamps that need not move forward) interleaved with register / unregister calls from other threads (one call at a time); real '
         'TaskHandler (2 workers) applies the updates; a seeded subset of updates is parked inside a listener until a '
         'later update has been applied (or 0.25 s passed); LINE yields in deep/config + deep/task; separately the real '
         'RepeatedTimer is run against failing polls; non-trivial = two updates were in flight together or a '
